@@ -3,6 +3,7 @@ open, recovers through half-open."""
 import contextlib
 import io
 import itertools
+import threading
 
 from . import common
 from .common import Check, Violation, cz, cbool, clist, ctuple
@@ -15,7 +16,8 @@ ZV = {"EXECUTE": "ZExecute", "PERMIT": "ZPermit", "BLOCK": "ZBlock", "FAILURE": 
 YV = {"PERMIT": "YPermit", "BLOCK": "YBlock", "UNKNOWN": "YOther", "EXECUTE": "YOther", "FAILURE": "YOther"}
 ACTIONS = {"SUCCESS": 0, "BLOCKED": 1, "FAILURE": 2, "SKIPPED": 3, "ERROR": 4, "CIRCUIT_OPEN": 5}
 CIRC = {"closed": 0, "open": 1, "half_open": 2}
-OPC = {"tick": 0, "run": 1, "reset": 2, "clear": 3, "log": 4}
+OPC = {"tick": 0, "run": 1, "reset": 2, "clear": 3, "log": 4, "begin": 5, "end": 6}
+PLACES = {"z": "InZ", "y": "InY"}
 ZCODE = {None: 0, "EXECUTE": 1, "PERMIT": 2, "BLOCK": 3, "FAILURE": 4}     # anything else: 5
 
 # request outcome classes -> (executor behaviour, assessor behaviour) under the AND gate
@@ -34,19 +36,33 @@ class AgentDown(Exception):
     pass
 
 
-def outcome(op, res):
+class Abandon(BaseException):
+    """Ends a request that the history leaves suspended inside an agent (after the last observation)."""
+
+
+def script_of(op):
+    """(executor behaviour, assessor behaviour) of a scripted request, None for anything else."""
+    if op[0] == "run" and len(op) == 5:
+        return (op[2], op[3])
+    if op[0] == "begin":
+        return (op[3], op[4])
+    return None
+
+
+def outcome(script, res):
     """Outcome class of an answered request, by what the agents did (READING of the property):
        refused | cache_hit | success (result not blocked) | exception (an agent raised) |
-       executor_failure (blocked, executor verdict FAILURE) | block (any other blocked result)."""
+       executor_failure (blocked, executor verdict FAILURE) | block (any other blocked result).
+       `script` = (executor, assessor) behaviour of the scripted stub agents, None with the real agents."""
     if res is None:
         return None
     if res["action"] == 5:
         return "refused"
     if res["cached"]:
         return "cache_hit"
-    if len(op) == 5:                       # scripted stub agents: the verdicts are known
-        raised = op[2] == "raise" or op[3] == "raise"
-        zverdict = op[2]
+    if script is not None:                 # scripted stub agents: the verdicts are known
+        raised = script[0] == "raise" or script[1] == "raise"
+        zverdict = script[0]
     else:                                  # real agents: read the executor's output off the result
         raised = res["zout"] is None and res["action"] == 4
         zverdict = res["zout"]
@@ -57,8 +73,8 @@ def outcome(op, res):
     return "executor_failure" if zverdict == "FAILURE" else "block"
 
 
-def is_failure(op, res):
-    return outcome(op, res) in ("exception", "executor_failure")
+def is_failure(script, res):
+    return outcome(script, res) in ("exception", "executor_failure")
 
 
 class C08(Check):
@@ -68,7 +84,16 @@ class C08(Check):
     N_QUICK = 900
     N_THOROUGH = 12000
     RULE = ("histories of 1..14 operations (thorough: up to 40) over {run, clock advance, manual reset, clear cache, "
-            "get_results_log(limit) (a read-only accessor: no model operation, so every later observation shows it changed nothing)}; "
+            "get_results_log(limit) (a read-only accessor: no model operation, so every later observation shows it changed nothing), "
+            "begin(id, request, agent) / end(id)}; a third of the generated histories have requests that OVERLAP on the loop: a begun request "
+            "runs on a thread of its own up to the inside of executor.express() or assessor.express() (after the agent was counted and has "
+            "spent), is suspended there while the other operations are carried out (whole requests, up to 3 requests in flight, clock "
+            "advances, resets) and is ended later in any order, 15% never; enumerated overlap histories: 7 outcome classes of the "
+            "straggler x the agent it waits in x {answered while OPEN inside / after the timeout, while a probe is in flight, two probes in "
+            "flight in both orders, manual reset or successful probe meanwhile, a request slower than the timeout, begin refused / served "
+            "from the cache at once, two requests for one prompt} x thresholds 1,2 (thorough: 3, and all 6 gate logics x 24 verdict pairs), "
+            "breaker disabled for two of them, plus every word of length <= 4 for threshold 1 (thorough: <= 5 for threshold 1, <= 4 for threshold 2) over {begin ok, begin failing, "
+            "end oldest, failure, success, advance below / by the timeout, reset} with a begin before an end; "
             "40% of the loops with silent=False (stdout captured; every print path of run/_check_circuit/_record_*/_print_result), 35% with "
             "recording on_block/on_permit callbacks (their call counts are observed), 10% with timeout_seconds set; "
             "get_circuit_breaker_stats()/get_statistics() are read before and after every operation; "
@@ -92,7 +117,11 @@ class C08(Check):
                   "is reached since the last clear, open after threshold consecutive failures, complete isolation while open (no agent "
                   "call, no spend, CIRCUIT_OPEN, breaker untouched) until now-last_failure >= timeout, probe admitted afterwards, probe "
                   "success closes and clears, probe failure re-opens with last_failure := now, blocked results whose executor verdict is not FAILURE "
-                  "never count under any gate logic, a disabled breaker never refuses. The model is tied to the code by evaluating it in Coq on every generated "
+                  "never count under any gate logic, a disabled breaker never refuses; and over all histories with OVERLAPPING requests (Begin/End: a "
+                  "request suspended inside an agent is answered later, on the breaker and at the clock of that moment): invariant, never open "
+                  "before the threshold, isolation of every ARRIVING request while open with stragglers answered meanwhile (no outcome of a "
+                  "straggler closes the breaker or clears the count; a failed one restarts the timeout), OPEN is left only by a manual reset or by "
+                  "a request arriving after the timeout; sequential histories and begin+end-at-once are the special cases. The model is tied to the code by evaluating it in Coq on every generated "
                   "history the implementation ran under a virtual clock with stub agents (exhaustive for short histories).")
     LEVEL_NOTE = ("Trusts: Coq kernel+VM; the correspondence harness; time modelled as integer microseconds, one clock reading per "
                   "run() before the agents and one after; agents as scripted stubs; the 1000-entry results log is not modelled (its accessor is "
@@ -109,12 +138,22 @@ class C08(Check):
                "the 1000-entry results log and the text of the console output are not modelled: get_results_log and silent=False are "
                "exercised as operations/configurations that must leave every observation of the model unchanged; on_block/on_permit are "
                "benign recording callbacks (counted; callbacks that raise are outside the property); the cache cap of 1000 entries IS modelled",
+               "overlapping requests: a request gives up control only inside executor.express() / assessor.express() (stub agents, one thread per "
+               "begun request, hand-shaking with the driver so that exactly one thread runs at a time); pre-emption between two lines of run() "
+               "outside the agents is not explored; overlapping histories stay far below the 1000-entry cache cap (the model's cache list moves a "
+               "re-stored key to the front, the dict keeps its position: only the eviction order among equal timestamps could differ)",
+               "READING (overlap): 'while open it neither invokes its agents nor spends energy and answers every request CIRCUIT_OPEN' is about the "
+               "requests that ARRIVE while the breaker is open; a request admitted earlier that is still inside the executor when the breaker "
+               "trips does go on to its assessor (one call, one spend) and its answer is recorded - it must not close the breaker, clear the "
+               "count or shorten the timeout. A probe is a request that arrives after the timeout / while half-open; what a straggler admitted "
+               "while CLOSED does to a HALF_OPEN breaker is not demanded either way by the monitor",
                "READING: outcome classes are by agent verdicts - success = result not blocked; executor failure = blocked result whose "
                "executor verdict is FAILURE (any assessor verdict, any gate logic); agent exception = either agent raises; intentional "
                "block = every other blocked result. Under OR an executor FAILURE with an assessor PERMIT is an unblocked SUCCESS and "
                "is recorded as a success"]
     ASSUMPTIONS = ["failure_threshold, recovery_timeout, gate_logic, enable_circuit_breaker are not reassigned after construction",
-                   "one thread drives the loop (no concurrent run() calls)",
+                   "concurrent run() calls interleave only at the agents' express() calls (requests suspended there while others run); "
+                   "arbitrary pre-emption between bytecodes of run() is not covered",
                    "on_block / on_permit callbacks return normally and do not call back into the loop"]
 
     # -- generation --------------------------------------------------------
@@ -185,8 +224,25 @@ class C08(Check):
             nops = rng.randint(1, top)
             profile = rng.choice([(0.6, 0.1), (0.6, 0.1), (0.35, 0.3), (0.2, 0.2), (0.85, 0.05)])
             ops = []
+            # a third of the histories have requests that OVERLAP: begun, suspended inside the executor or the assessor
+            # while other operations (whole requests, further begins, clock advances, resets) are carried out, ended later
+            overlap = rng.random() < 0.34
+            flying = []
             for k in range(nops):
                 r = rng.random()
+                if overlap:
+                    q = rng.random()
+                    if flying and q < 0.22:
+                        ops.append(["end", flying.pop(rng.randrange(len(flying)))])
+                        continue
+                    if len(flying) < 3 and q < 0.42:
+                        run = self._rand_run(rng, rng.choice([profile, (0.15, 0.1)]), cfg["timeout_us"], 100 + k)
+                        ops.append(["begin", k, run[1], run[2], run[3], run[4], rng.choice("zzy")])
+                        flying.append(k)          # (a begin that is answered at once leaves a dangling end: no operation)
+                        continue
+                    if q > 0.995:
+                        ops.append(["end", rng.choice([k, 0, 99])])
+                        continue
                 if r < 0.28:
                     ops.append(self._rand_tick(rng, cfg["timeout_us"], cfg["ttl_us"]))
                 elif r < 0.32:
@@ -197,7 +253,103 @@ class C08(Check):
                     ops.append(["log", rng.choice([100, 1, 0, 3, 5000, -1])])
                 else:
                     ops.append(self._rand_run(rng, profile, cfg["timeout_us"], 100 + k))
+            if overlap:
+                # most requests still in flight are answered in the end (any order), then two more requests arrive
+                rng.shuffle(flying)
+                for rid in flying:
+                    if rng.random() < 0.85:
+                        ops.append(["end", rid])
+                ops.append(self._rand_tick(rng, cfg["timeout_us"], cfg["ttl_us"]) if rng.random() < 0.3
+                           else self._rand_run(rng, (0.1, 0.1), cfg["timeout_us"], 900))
+                ops.append(self._rand_run(rng, (0.1, 0.1), cfg["timeout_us"], 901))
             out.append({"cfg": cfg, "ops": ops})
+        return out
+
+    # -- requests that overlap on the loop --------------------------------------------------------------------
+    def _overlap_cases(self):
+        """What a request that was admitted earlier does to the breaker when it is answered later: every outcome class x
+        the agent it was suspended in x the state the breaker has reached meanwhile (closed / open inside and after
+        the timeout / half-open with a probe in flight / manually reset), for thresholds 1 and 2."""
+        T = 10 * US
+        S = lambda p: ["run", p, "EXECUTE", "PERMIT", 0]
+        F = lambda p: ["run", p, "FAILURE", "PERMIT", 0]
+        out = []
+        stragglers = ["S", "B", "K", "F", "X", "Y", "U"]
+        thrs = (1, 2) if self.tier == "quick" else (1, 2, 3)
+        for thr in thrs:
+            for oc in stragglers:
+                z, y = OUTCOME[oc]
+                for place in "zy":
+                    if place == "y" and z == "raise":
+                        continue
+                    B = lambda rid, p, d=0: ["begin", rid, p, z, y, d, place]
+                    trip = [F(20 + k) for k in range(thr)]
+                    scen = {
+                        # tripped while the request is inside the agents; answered inside the timeout
+                        "answered-while-open": [B(1, 1)] + trip + [S(30), ["end", 1], S(31), ["tick", T - 1], S(32), ["tick", 1], S(33), S(34)],
+                        # answered after the timeout has elapsed but before any probe (a failure restarts the timeout)
+                        "answered-after-timeout": [B(1, 1)] + trip + [["tick", T], ["end", 1], S(31), ["tick", T - 1], S(32), ["tick", 1], S(33)],
+                        # answered while a probe is in flight
+                        "answered-while-half-open": [B(1, 1)] + trip + [["tick", T], B(2, 2), ["end", 1], S(31), ["end", 2], S(32), S(33)],
+                        # two probes in flight, answered one after the other
+                        "two-probes": trip + [["tick", T + 1], B(1, 1), ["begin", 2, 2, "EXECUTE", "PERMIT", 0, "z"], ["end", 1], S(31), ["end", 2], S(32)],
+                        "two-probes-other-order": trip + [["tick", T + 1], B(1, 1), ["begin", 2, 2, "FAILURE", "PERMIT", 0, "y"], ["end", 2], S(31), ["end", 1], S(32), ["tick", T], S(33)],
+                        # manual reset / successful probe while it is in flight, then it is answered in CLOSED
+                        "reset-meanwhile": [B(1, 1)] + trip + [["reset"], ["end", 1]] + trip + [S(31)],
+                        "recovered-meanwhile": [B(1, 1)] + trip + [["tick", T], S(30), ["end", 1], F(31), S(32)],
+                        # the request itself takes longer than the timeout; never tripped / tripped by it
+                        "slow": [F(20)] * (thr - 1) + [B(1, 1, T + 5), S(30), ["end", 1], S(31), ["tick", T - 5], S(32), ["tick", 5], S(33)],
+                        # a begin that is answered at once: refused while open, served from the cache
+                        "begin-at-once": [S(1), B(1, 1)] + trip + [B(2, 2), ["end", 2], ["end", 1], ["tick", T], B(3, 1), B(4, 3), ["end", 4], S(31)],
+                        # both requests for one prompt
+                        "same-prompt": [B(1, 1), ["begin", 2, 1, "EXECUTE", "PERMIT", 0, "z"], ["end", 2], ["end", 1], S(1)] + trip + [S(1)],
+                    }
+                    for name, ops in scen.items():
+                        for enabled in ((True, False) if name in ("answered-while-open", "two-probes") else (True,)):
+                            out.append({"cfg": {"enabled": enabled, "thr": thr, "timeout_us": T, "cache": name in ("begin-at-once", "same-prompt"),
+                                                "ttl_us": 3000 * US, "gate": "and", "cost": 10},
+                                        "ops": [list(o) for o in ops], "word": f"overlap:{name}:{oc}{place}"})
+        # every gate logic: a straggler of every verdict pair answered while open and as one of two probes
+        if self.tier != "quick":
+            for gate in GATES:
+                for z in list(ZV) + ["raise"]:
+                    for y in ["PERMIT", "BLOCK", "UNKNOWN", "raise"]:
+                        ops = [["begin", 1, 1, z, y, 0, "z"], F(20), F(21), ["end", 1], S(30), ["tick", T], ["begin", 2, 2, z, y, 3, "z"],
+                               ["begin", 3, 3, z, y, 0, "z"], ["end", 3], ["end", 2], S(31)]
+                        out.append({"cfg": {"enabled": True, "thr": 2, "timeout_us": T, "cache": False, "ttl_us": 300 * US,
+                                            "gate": gate, "cost": 10}, "ops": ops, "word": f"overlap:{gate}:{z}/{y}"})
+        return out
+
+    def _overlap_words(self):
+        """Every word of length <= 4 for threshold 1 (thorough: <= 5 for threshold 1, <= 4 for threshold 2) over b / f (a successful / a failing request begins and is
+        suspended in the executor), e (the oldest request in flight is answered), F, S, - and = (advance below / by the timeout),
+        R (manual reset) that has a begin followed later by an end."""
+        out = []
+        plan = {1: 4} if self.tier == "quick" else {1: 5, 2: 4}
+        T = 10 * US
+        for thr, top in plan.items():
+            for n in range(2, top + 1):
+                for w in itertools.product("bfeFS-=R", repeat=n):
+                    w = "".join(w)
+                    first = min([w.find(c) for c in "bf" if c in w], default=-1)
+                    if first < 0 or "e" not in w[first + 1:]:
+                        continue
+                    ops, fl = [], []
+                    for k, ch in enumerate(w):
+                        if ch in "bf":
+                            ops.append(["begin", k, 10 + k, "EXECUTE" if ch == "b" else "FAILURE", "PERMIT", 0, "z"])
+                            fl.append(k)
+                        elif ch == "e":
+                            ops.append(["end", fl.pop(0) if fl else 99])
+                        elif ch in "FS":
+                            ops.append(["run", 10 + k, OUTCOME[ch][0], OUTCOME[ch][1], 0])
+                        elif ch == "R":
+                            ops.append(["reset"])
+                        else:
+                            ops.append(["tick", T - 1 if ch == "-" else T])
+                    ops.append(["run", 90, "EXECUTE", "PERMIT", 0])
+                    out.append({"cfg": {"enabled": True, "thr": thr, "timeout_us": T, "cache": False, "ttl_us": 300 * US,
+                                        "gate": "and", "cost": 10}, "ops": ops, "word": "overlap:" + w})
         return out
 
     # -- histories long enough to reach the caps of 1000 cache entries / 1000 logged results ------------------
@@ -314,6 +466,8 @@ class C08(Check):
         out.append(self._symbolic(2, "FFFFF"))
         out.append(self._symbolic(4, "FXFX-S=S"))
         out.append(self._symbolic(3, "FFF=F-S=S"))
+        out += self._overlap_cases()
+        out += self._overlap_words()
         # a third of the enumerated histories with console output, a quarter with recording callbacks, some with the
         # results-log accessor between every two operations (all three must be invisible)
         for i, c in enumerate(out):
@@ -363,18 +517,31 @@ class C08(Check):
             def now(cls, tz=None):
                 return base + timedelta(microseconds=clock["us"])
 
+        ctx = threading.local()          # .rq: the request whose run() is executing on this thread
+        flying, workers = {}, []         # id -> request suspended inside an agent; the threads started for them
+
         class Stub:
-            def __init__(self, name, store):
-                self.name, self.atp, self.calls = name, store, 0
-                self.next, self.dur = "EXECUTE", 0
+            """Scripted agent: counted, spends, (a request that is to overlap others is suspended here until the
+            history ends it), the executor takes its time, then answers or raises as the request's script says."""
+            def __init__(self, name, store, kind):
+                self.name, self.atp, self.calls, self.kind = name, store, 0, kind
 
             def express(self, signal):
+                rq = ctx.rq
                 self.calls += 1
                 self.atp.consume(cost=cfg["cost"], operation=self.name)
-                clock["us"] += self.dur
-                if self.next == "raise":
+                if rq.get("park") == self.kind:
+                    rq["parked"] = True
+                    rq["evt"].set()              # hand control back to the driver ...
+                    rq["gate"].wait()            # ... until the history ends this request
+                    if rq.get("abandon"):
+                        raise Abandon()
+                if self.kind == "z":
+                    clock["us"] += rq["dur"]
+                nxt = rq[self.kind]
+                if nxt == "raise":
                     raise AgentDown(self.name)
-                return ActionProtein(self.next, f"{self.name}:{self.next}", 1.0)
+                return ActionProtein(nxt, f"{self.name}:{nxt}", 1.0)
 
         orig = L.datetime
         self._patched = (L, orig)
@@ -416,7 +583,7 @@ class C08(Check):
                 zc = lambda: calls["z"]
                 yc = lambda: calls["y"]
             else:
-                zs, ys = Stub("Z", store), Stub("Y", store)
+                zs, ys = Stub("Z", store, "z"), Stub("Y", store, "y")
                 loop.executor, loop.assessor = zs, ys
                 zc = lambda: zs.calls
                 yc = lambda: ys.calls
@@ -437,12 +604,37 @@ class C08(Check):
                         "requests": g["total_requests"], "blocked": g["total_blocked"], "permitted": g["total_permitted"],
                         "cache": g["cache_size"], "now": clock["us"], "cb_block": cb["block"], "cb_permit": cb["permit"]}
 
+            def answer(r):
+                zo = r.executor_output.action_type if r.executor_output is not None else None
+                return {"success": bool(r.success), "blocked": bool(r.blocked),
+                        "action": ACTIONS.get(r.action, 99), "cached": bool(r.cached), "zout": zo}
+
+            def worker(rq):
+                # a request that overlaps others runs on a thread of its own; it hand-shakes with the driver
+                # (evt / gate) so that exactly one thread is running at any time
+                ctx.rq = rq
+                try:
+                    rq["res"] = loop.run(f"p{rq['prompt']}")
+                except Abandon:
+                    pass
+                except BaseException as e:  # noqa - run() is not supposed to raise
+                    rq["exc"] = type(e).__name__
+                finally:
+                    rq["finished"] = True
+                    rq["evt"].set()
+
+            def collect(rq):
+                if "exc" in rq:
+                    raise RuntimeError(rq["exc"])
+                return answer(rq["res"])
+
             obs, trace = [], []
             for op in case["ops"]:
                 before = snap()
                 res = None
                 exc = None
                 loglen = None
+                extra = {}
                 mark = sink.tell()
                 try:
                     with contextlib.redirect_stdout(sink):
@@ -454,21 +646,50 @@ class C08(Check):
                             loop.reset_circuit_breaker()
                         elif op[0] == "clear":
                             loop.clear_cache()
+                        elif op[0] == "begin":
+                            # ["begin", id, prompt, executor, assessor, duration, agent it is suspended in]
+                            if real_agents or op[1] in flying:
+                                raise common.Hang()      # not a history of this language
+                            rq = {"id": op[1], "prompt": op[2], "z": op[3], "y": op[4], "dur": op[5], "park": op[6],
+                                  "evt": threading.Event(), "gate": threading.Event()}
+                            th = threading.Thread(target=worker, args=(rq,), daemon=True)
+                            workers.append(th)
+                            th.start()
+                            if not rq["evt"].wait(5.0):
+                                raise common.Hang()
+                            if rq.get("finished"):       # refused / served from the cache / the executor raised
+                                th.join(2.0)
+                                res = collect(rq)
+                            else:
+                                flying[op[1]] = rq
+                                extra["suspended"] = True
+                        elif op[0] == "end":
+                            rq = flying.pop(op[1], None)
+                            if rq is None:
+                                extra["unknown"] = True  # nothing in flight under that id: no operation
+                            else:
+                                extra["script"] = (rq["z"], rq["y"])
+                                rq["evt"].clear()
+                                rq["gate"].set()
+                                if not rq["evt"].wait(5.0):
+                                    raise common.Hang()
+                                res = collect(rq)
                         else:
                             if real_agents:
                                 r = loop.run(op[1])
                             else:
-                                zs.next, zs.dur, ys.next = op[2], op[4], op[3]
+                                ctx.rq = {"z": op[2], "y": op[3], "dur": op[4]}
                                 r = loop.run(f"p{op[1]}")
-                            zo = r.executor_output.action_type if r.executor_output is not None else None
-                            res = {"success": bool(r.success), "blocked": bool(r.blocked),
-                                   "action": ACTIONS.get(r.action, 99), "cached": bool(r.cached), "zout": zo}
+                            res = answer(r)
+                except common.Hang:
+                    raise
                 except Exception as e:  # run() is not supposed to raise
                     exc = type(e).__name__
                 after = snap()
                 sink.seek(mark)
                 printed = sink.read()
-                step = {"op": op, "before": before, "after": after, "res": res, "exc": exc, "printed": printed, "loglen": loglen}
+                step = {"op": op, "before": before, "after": after, "res": res, "exc": exc, "printed": printed, "loglen": loglen,
+                        "script": script_of(op), **extra}
                 if op[0] == "log" and exc is None:
                     # read-only accessor: no row - the model has no such operation, so every later row shows that the
                     # call changed nothing
@@ -494,6 +715,11 @@ class C08(Check):
                     break
             return obs, {"steps": trace}
         finally:
+            for rq in flying.values():       # requests the history leaves inside an agent for good
+                rq["abandon"] = True
+                rq["gate"].set()
+            for th in workers:
+                th.join(2.0)
             L.datetime = orig
             self._patched = None
 
@@ -506,16 +732,22 @@ class C08(Check):
         for op in ([] if case.get("real_agents") else case["ops"]):
             if op[0] == "log":
                 continue                      # transparent accessor: not an operation of the model
+            def req(prompt, z, y, dur):
+                zb = "Raises" if z == "raise" else f"(Returns {ZV[z]})"
+                yb = "Raises" if y == "raise" else f"(Returns {YV[y]})"
+                return f"(mkReq {cz(prompt)} {zb} {yb} {cz(dur)})"
             if op[0] == "tick":
-                ops.append(f"Tick {cz(op[1])}")
+                ops.append(f"Seq (Tick {cz(op[1])})")
             elif op[0] == "reset":
-                ops.append("Reset")
+                ops.append("Seq Reset")
             elif op[0] == "clear":
-                ops.append("ClearCache")
+                ops.append("Seq ClearCache")
+            elif op[0] == "begin":
+                ops.append(f"Begin {cz(op[1])} {req(op[2], op[3], op[4], op[5])} {PLACES[op[6]]}")
+            elif op[0] == "end":
+                ops.append(f"End {cz(op[1])}")
             else:
-                zb = "Raises" if op[2] == "raise" else f"(Returns {ZV[op[2]]})"
-                yb = "Raises" if op[3] == "raise" else f"(Returns {YV[op[3]]})"
-                ops.append(f"Run (mkReq {cz(op[1])} {zb} {yb} {cz(op[4])})")
+                ops.append(f"Seq (Run {req(op[1], op[2], op[3], op[4])})")
         return ctuple(cfg, cbool(bool(c.get("callbacks"))), clist(ops))
 
     # -- the property, on the implementation's trace ------------------------
@@ -525,8 +757,9 @@ class C08(Check):
         cfg = case["cfg"]
         thr, tmo, enabled = cfg["thr"], cfg["timeout_us"], cfg["enabled"]
         fails_since_clear = 0      # failed requests since the last clear (manual reset / successful probe)
-        consecutive = 0            # failed requests in a row
+        consecutive = 0            # failed requests in a row (in the order in which they were answered)
         last_fail = None           # clock reading when the most recent request failed
+        flying = {}                # id -> was the request admitted as a probe; requests suspended inside an agent
         for i, st in enumerate(trace["steps"]):
             op, b, a, res = st["op"], st["before"], st["after"], st["res"]
             where = f"step {i} {op}"
@@ -537,66 +770,84 @@ class C08(Check):
                 if a["state"] != 0 or a["fc"] != 0:
                     return Violation("C08/reset-does-not-close", f"{where}: after manual reset state={a['state']} failure_count={a['fc']}")
                 continue
-            if op[0] != "run":
+            if op[0] not in ("run", "begin", "end") or st.get("unknown"):
                 if (a["state"], a["fc"], a["lf"], a["trips"]) != (b["state"], b["fc"], b["lf"], b["trips"]):
                     return Violation("C08/breaker-moved-without-request", f"{where}: {b} -> {a}")
                 continue
+            arrival = op[0] != "end"                # the request arrives in this step ...
+            suspended = bool(st.get("suspended"))   # ... and is left inside an agent (it is answered by a later "end")
             consulted = a["z"] - b["z"] >= 1
-            refused = res["action"] == 5
+            refused = res is not None and res["action"] == 5
+            cached = res is not None and res["cached"]
             if not enabled:
                 # with the breaker disabled agents are always consulted
-                if refused or not (res["cached"] or consulted):
+                if arrival and (refused or not (cached or consulted)):
                     return Violation("C08/disabled-refuses", f"{where}: breaker disabled but the request was answered {res} without consulting the agents")
                 continue
-            elapsed = None if last_fail is None else b["now"] - last_fail
-            if b["state"] == 1 and (elapsed is None or elapsed < tmo):
-                # open, timeout not elapsed: isolate
-                quiet = (a["z"] == b["z"] and a["y"] == b["y"] and a["spent"] == b["spent"]
-                         and a["energy_ops"] == b["energy_ops"])
-                same = (a["state"], a["fc"], a["lf"], a["trips"], a["sc"]) == (b["state"], b["fc"], b["lf"], b["trips"], b["sc"])
-                if not (refused and res["blocked"] and not res["success"] and quiet and same):
-                    return Violation("C08/open-not-isolated", f"{where}: open with {elapsed}us < {tmo}us since the last failure, "
-                                     f"but answer={res} agent calls {b['z']},{b['y']}->{a['z']},{a['y']} spent {b['spent']}->{a['spent']} "
-                                     f"breaker {b['state']},{b['fc']}->{a['state']},{a['fc']}")
-                continue
-            # every other state admits the request
-            if refused:
-                sig = "C08/probe-not-admitted" if b["state"] == 1 else "C08/refused-while-not-open"
-                return Violation(sig, f"{where}: state {b['state']}, {elapsed}us since the last failure (timeout {tmo}us) but the request was refused")
-            if not (res["cached"] or consulted):
-                return Violation("C08/admitted-without-agents", f"{where}: admitted, not a cache hit, yet the executor was not consulted")
-            probing = b["state"] in (1, 2)
-            gate_state = 2 if probing else b["state"]     # the state in which the agents ran
-            oc = outcome(op, res)
-            if oc in ("exception", "executor_failure"):
-                fails_since_clear += 1
-                consecutive += 1
-                if probing and not (a["state"] == 1 and a["lf"] == a["now"] and a["trips"] == b["trips"] + 1):
-                    return Violation("C08/probe-failure-not-reopened", f"{where}: failed probe left state={a['state']} last_failure={a['lf']} now={a['now']} trips {b['trips']}->{a['trips']}")
-                last_fail = a["now"]
+            if arrival:
+                elapsed = None if last_fail is None else b["now"] - last_fail
+                if b["state"] == 1 and (elapsed is None or elapsed < tmo):
+                    # open, timeout not elapsed: isolate
+                    quiet = (a["z"] == b["z"] and a["y"] == b["y"] and a["spent"] == b["spent"]
+                             and a["energy_ops"] == b["energy_ops"])
+                    same = (a["state"], a["fc"], a["lf"], a["trips"], a["sc"]) == (b["state"], b["fc"], b["lf"], b["trips"], b["sc"])
+                    if not (refused and res["blocked"] and not res["success"] and quiet and same):
+                        return Violation("C08/open-not-isolated", f"{where}: open with {elapsed}us < {tmo}us since the last failure, "
+                                         f"but answer={'(admitted, now inside an agent)' if suspended else res} agent calls {b['z']},{b['y']}->{a['z']},{a['y']} spent {b['spent']}->{a['spent']} "
+                                         f"breaker {b['state']},{b['fc']}->{a['state']},{a['fc']}")
+                    continue
+                # every other state admits the request
+                if refused:
+                    sig = "C08/probe-not-admitted" if b["state"] == 1 else "C08/refused-while-not-open"
+                    return Violation(sig, f"{where}: state {b['state']}, {elapsed}us since the last failure (timeout {tmo}us) but the request was refused")
+                if not (cached or consulted):
+                    return Violation("C08/admitted-without-agents", f"{where}: admitted, not a cache hit, yet the executor was not consulted")
+                probe = b["state"] in (1, 2)              # admitted after the timeout / while half-open
+                gate_state = 2 if probe else b["state"]   # the state in which its answer is recorded
+                if suspended:
+                    flying[op[1]] = probe
             else:
-                consecutive = 0
-                if oc == "success":
-                    if probing:
-                        fails_since_clear = 0
-                        if not (a["state"] == 0 and a["fc"] == 0):
-                            return Violation("C08/probe-success-not-closed", f"{where}: successful probe left state={a['state']} failure_count={a['fc']}")
-                    elif a["state"] != 0:
-                        return Violation("C08/success-opens", f"{where}: a success in CLOSED left state {a['state']}")
+                # a request admitted earlier (it overlapped the operations since) is answered now
+                probe = flying.pop(op[1], False)
+                gate_state = b["state"]
+                elapsed = None if last_fail is None else a["now"] - last_fail
+                if b["state"] == 1 and a["state"] != 1 and (elapsed is None or elapsed < tmo):
+                    # only a request that ARRIVES after the timeout (or a manual reset) may end the isolation
+                    return Violation("C08/open-left-without-probe", f"{where}: the breaker was open, {elapsed}us < {tmo}us since the last failure, "
+                                     f"and the answer {res} of a request admitted earlier moved it to state {a['state']} "
+                                     f"(failure_count {b['fc']}->{a['fc']})")
+            if not suspended:
+                oc = outcome(st["script"], res)
+                if oc in ("exception", "executor_failure"):
+                    fails_since_clear += 1
+                    consecutive += 1
+                    if probe and gate_state == 2 and not (a["state"] == 1 and a["lf"] == a["now"] and a["trips"] == b["trips"] + 1):
+                        return Violation("C08/probe-failure-not-reopened", f"{where}: failed probe left state={a['state']} last_failure={a['lf']} now={a['now']} trips {b['trips']}->{a['trips']}")
+                    last_fail = a["now"]
                 else:
-                    # intentional block (blocked, executor verdict not FAILURE, nobody raised) or cache hit:
-                    # not a failure, not a success
-                    if (a["fc"], a["trips"], a["lf"], a["state"]) != (b["fc"], b["trips"], b["lf"], gate_state):
-                        sig = "C08/block-counted-as-failure" if oc == "block" else "C08/cache-hit-moves-breaker"
-                        return Violation(sig, f"{where}: answer {res} changed the breaker: failure_count {b['fc']}->{a['fc']} "
-                                         f"state {b['state']}->{a['state']} trips {b['trips']}->{a['trips']}")
+                    consecutive = 0
+                    if oc == "success":
+                        if gate_state == 2:
+                            if probe and not (a["state"] == 0 and a["fc"] == 0):
+                                return Violation("C08/probe-success-not-closed", f"{where}: successful probe left state={a['state']} failure_count={a['fc']}")
+                            if a["state"] == 0:
+                                fails_since_clear = 0
+                        elif gate_state == 0 and a["state"] != 0:
+                            return Violation("C08/success-opens", f"{where}: a success in CLOSED left state {a['state']}")
+                    else:
+                        # intentional block (blocked, executor verdict not FAILURE, nobody raised) or cache hit:
+                        # not a failure, not a success
+                        if (a["fc"], a["trips"], a["lf"], a["state"]) != (b["fc"], b["trips"], b["lf"], gate_state):
+                            sig = "C08/block-counted-as-failure" if oc == "block" else "C08/cache-hit-moves-breaker"
+                            return Violation(sig, f"{where}: answer {res} changed the breaker: failure_count {b['fc']}->{a['fc']} "
+                                             f"state {b['state']}->{a['state']} trips {b['trips']}->{a['trips']}")
             # never open before the threshold has been reached since the last clear
             if a["state"] in (1, 2) and fails_since_clear < thr:
                 return Violation("C08/open-before-threshold", f"{where}: state {a['state']} after only {fails_since_clear} failure(s) since the last clear, threshold {thr}")
             if a["trips"] > b["trips"] and (fails_since_clear < thr or a["state"] != 1):
                 return Violation("C08/open-before-threshold", f"{where}: tripped after {fails_since_clear} failure(s), threshold {thr}, state {a['state']}")
             # open at the latest after threshold consecutive failures
-            if consecutive >= max(thr, 1) and a["state"] != 1:
+            if not suspended and consecutive >= max(thr, 1) and a["state"] != 1:
                 return Violation("C08/not-open-after-threshold-failures", f"{where}: {consecutive} consecutive failed requests, threshold {thr}, state {a['state']} failure_count {a['fc']}")
         return None
 
@@ -635,7 +886,7 @@ class C08(Check):
         self.extra_cov["real_agent_histories"] = n
 
     def nontrivial(self, case, obs, trace):
-        return any(is_failure(s["op"], s["res"]) or s["after"]["state"] != 0 for s in trace.get("steps", []))
+        return any(is_failure(s.get("script"), s["res"]) or s["after"]["state"] != 0 for s in trace.get("steps", []))
 
     def classify(self, case, obs, trace):
         c = case["cfg"]
@@ -653,15 +904,24 @@ class C08(Check):
                                  ("\u26a0", "other")):
                     if key in s["printed"]:
                         ks.append("printed=" + tag)
-            if op[0] != "run":
+            if op[0] not in ("run", "begin", "end"):
                 ks.append("op=" + op[0])
                 if s.get("loglen") is not None and s["loglen"] >= self.CAP:
                     ks.append("results-log-at-cap")
                 continue
+            if op[0] != "run":
+                ks.append("overlap/" + ("begin-suspended-in-" + op[6] if s.get("suspended") else
+                                        "begin-answered-at-once" if op[0] == "begin" else
+                                        "end-of-nothing" if s.get("unknown") else
+                                        f"end-while-{['closed', 'open', 'half_open'][b['state']] if b['state'] in (0, 1, 2) else b['state']}"))
             if res is None:
+                if s.get("suspended") and b["state"] == 1 and a["state"] == 2:
+                    ks.append("left-half-open")
                 continue
-            oc = outcome(op, res)
+            oc = outcome(s.get("script"), res)
             ks.append("out=" + oc)
+            if op[0] == "end":
+                ks.append(f"overlap/end-{oc}-while-{['closed', 'open', 'half_open'][b['state']] if b['state'] in (0, 1, 2) else b['state']}")
             if oc in ("block", "executor_failure", "exception") and c["gate"] != "and":
                 ks.append(f"out={oc}/gate={c['gate']}")
             if oc == "executor_failure" and res["success"]:
